@@ -153,6 +153,16 @@ def solve_all(jobs, workers):
     return results
 
 
+def loop_headers(fn):
+    """the loops of a function as text of their headers (iteration target and iterable, or the while test), in source order:
+    a sidecar invariant is keyed to a loop; when the header is unchanged the invariant still describes that loop"""
+    import ast as _ast
+    loops = [n for n in _ast.walk(fn) if isinstance(n, (_ast.For, _ast.While))]
+    loops.sort(key=lambda n: (n.lineno, n.col_offset))
+    return ['for %s in %s' % (_ast.unparse(n.target), _ast.unparse(n.iter)) if isinstance(n, _ast.For) else 'while %s' % _ast.unparse(n.test)
+            for n in loops]
+
+
 def relevant_axioms(hyps, goal):
     """the element-access / membership link axioms are only needed where their function occurs (keeps simple queries
     quantifier-free, so that the solver can answer `sat` with a model instead of `unknown`)"""
@@ -228,7 +238,7 @@ def verify_modules(modnames, tier='quick', prop=None, only=None):
                 errors.append('%s: no path reaches an exit' % qual)
             functions.append(dict(function=qual, kind=ct.kind, paths=ex.paths, exits=dict(ex.exits), obligations=len(obls),
                                   source_sha1=prog.source_hash(qual) if ct.kind != 'lemma' else None,
-                                  loops_with_invariant=sorted(ct.loops), gen_s=round(time.time() - t0, 3)))
+                                  loops_with_invariant=sorted(ct.loops), loop_headers=loop_headers(ex.fn), gen_s=round(time.time() - t0, 3)))
             # vacuity: the precondition (with type invariants and axioms) must be satisfiable
             # ... and so must be at least one path to the normal exit and one path through every loop body
             seen = collections.Counter()
